@@ -181,6 +181,26 @@ class Parsed(object):
 
 def token_language(pattern):
     """ language of a lexer rule body (without its look-ahead) and the look-ahead language """
+    tree = list(sre_parse.parse(pattern))
+    if len(tree) == 1 and tree[0][0] == C.BRANCH:
+        # (A(?=L))|(B(?=L)): every alternative ends with the same look-ahead
+        bodies = []
+        las = []
+        for alt in tree[0][1][1]:
+            items = list(alt)
+            if len(items) == 1 and items[0][0] == C.SUBPATTERN:
+                items = list(items[0][1][3])
+            if items and items[-1][0] == C.ASSERT and items[-1][1][0] == 1:
+                las.append(items[-1][1][1])
+                items = items[:-1]
+            else:
+                las.append(None)
+            bodies.append(items)
+        if any(l is not None for l in las):
+            dumps = set(repr(list(l)) if l is not None else None for l in las)
+            if len(dumps) != 1:
+                raise Unsupported('alternatives with different look-aheads')
+            return union(seq_to_re(b) for b in bodies), seq_to_re(las[0])
     p = Parsed(pattern)
     if p.begin or p.end:
         raise Unsupported('anchored token rule')
